@@ -6,6 +6,8 @@ from __future__ import annotations
 
 import types
 
+import os
+
 import numpy as np
 import sympy as sp
 
@@ -372,6 +374,70 @@ def native_history(ck):
     return {"evaluations": n, "failures": fails}
 
 
+def results_columns(ck):
+    """compute(): the columns observed in the results table (tauBeta, tauLorentz, tauEnergy, showerEnergy, altDec, lenDec, ...) are the arrays
+    the stages returned -- nothing narrows them to single precision on the way into the table, with intermediate writing on or off (the speed
+    1 - 1e-15 of a PeV tau is 1 in float32)"""
+    from contracts.compute_model import Model
+
+    ck.add_file("nuspacesim/compute.py")
+    for staged in (False, True):
+        tag = "compute[Diffuse,write_stages=%d]" % staged
+        try:
+            paths = Model(mode="Diffuse", optical=True, radio=True, write_stages=staged).run()
+        except Exception as ex:
+            o = ck.ob("%s/exec" % tag, "exec")
+            o.note = "the pipeline model could not run on this tree: %r" % ex
+            ck._undecided(o, None)
+            continue
+        good = [p for p in paths if p.kind == "return"]
+        if not good or any(p.kind == "unsupported" for p in paths):
+            o = ck.ob("%s/exec" % tag, "exec")
+            o.note = "; ".join("%s %s" % (p.kind, str(p.exc)[:80]) for p in paths)[:300]
+            ck._undecided(o, lambda staged=staged: native_columns(ck, staged))
+            continue
+        casts = sorted({"%s at %s" % (e[2], e[3]) for p in good for e in p.effects if e[0] == "cast"})
+        ck.direct("%s/frame.columns_not_narrowed" % tag, not casts, "frame", "effect-log(symbolic execution of compute() on stage contracts)", note="; ".join(casts)[:200],
+                  clause="no column is converted to a narrower floating type between the stage that returns it and the results table",
+                  witness=None if not casts else {"write_stages": staged}, replay_out=None if not casts else native_columns(ck, staged))
+
+
+def native_columns(ck, staged):
+    """a real run: the kinematic columns of the returned table are float64 and satisfy the closed forms to double precision"""
+    import contextlib
+    import importlib
+    import io
+    import tempfile
+
+    from nuspacesim.config import NssConfig
+
+    C = importlib.import_module("nuspacesim.compute")
+    tmp = tempfile.mkdtemp(prefix="c07_", dir=os.environ.get("XDG_RUNTIME_DIR") or None)
+    try:
+        cfg = NssConfig()
+        cfg.simulation.thrown_events = 300
+        cfg.detector.radio.enable = False
+        with contextlib.redirect_stdout(io.StringIO()), contextlib.redirect_stderr(io.StringIO()), np.errstate(all="ignore"):
+            np.random.seed(ck.seed + 2)
+            t = C.compute(cfg, output_file=os.path.join(tmp, "o.fits"), write_stages=staged)
+        if len(t) == 0:
+            return {"violated": None, "note": "no surviving trajectory in the native run"}
+        g = np.asarray(t["tauEnergy"], dtype=np.float64) / M_TAU
+        bad = []
+        for name in ("tauBeta", "tauLorentz", "tauEnergy", "showerEnergy", "altDec", "lenDec"):
+            if name in t.colnames and np.asarray(t[name]).dtype != np.float64:
+                bad.append("%s is %s" % (name, np.asarray(t[name]).dtype))
+        if not np.allclose(np.asarray(t["tauLorentz"], dtype=np.float64), g, rtol=1e-12) or not np.all(np.asarray(t["tauBeta"], dtype=np.float64) < 1.0):
+            bad.append("tauLorentz == tauEnergy / m_tau to 1e-12 and tauBeta < 1 do not both hold")
+        return {"violated": bool(bad), "input": {"write_stages": staged, "thrown_events": 300, "seed": ck.seed + 2}, "observed": {"columns": bad, "max tauBeta": float(np.max(np.asarray(t["tauBeta"], dtype=np.float64)))}}
+    except Exception as ex:
+        return {"violated": None, "note": "native run failed: %r" % ex}
+    finally:
+        for f in os.listdir(tmp):
+            os.unlink(os.path.join(tmp, f))
+        os.rmdir(tmp)
+
+
 def run(ck):
     ck.assume("Taus.tau_exit_prob / Taus.tau_energy are replaced by their contracts (C05 / C04): arbitrary per-event values with E_tau >= 1 TeV (data obligation of C18: smallest reachable energy 1.78 TeV)",
               "the internal generator's draw is a ghost per-event input u; uniform(0,1) is half-open so u in [0,1) there, the statement's interval (0,1] is used for explicit u",
@@ -391,3 +457,4 @@ def run(ck):
     from contracts import C18
 
     C18.min_tau_energy(ck)
+    results_columns(ck)
